@@ -1,6 +1,7 @@
 import AvoVerif.Props.C17
 import AvoVerif.Props.C17Tables
 import AvoVerif.Props.C17Pipeline
+import AvoVerif.Props.C17History
 import AvoVerif.Props.C02
 #print axioms Avo.Determinism.get_perm
 #print axioms Avo.Determinism.update_perm
@@ -27,3 +28,14 @@ import AvoVerif.Props.C02
 #print axioms Avo.Determinism.update_flag_same
 #print axioms Avo.Determinism.acceptDet_sound
 #print axioms Avo.Determinism.acceptDet_complete
+#print axioms Avo.Determinism.globals_expected
+#print axioms Avo.Determinism.globals_census_nonvacuous
+#print axioms Avo.Determinism.no_variation_sources
+#print axioms Avo.Determinism.new_allocator_history_independent
+#print axioms Avo.Determinism.new_allocator_as_in_empty_process
+#print axioms Avo.Determinism.run_proj
+#print axioms Avo.Determinism.run_answers
+#print axioms Avo.Determinism.compileObj_eq_allocKind
+#print axioms Avo.Determinism.compile_after_any_history
+#print axioms Avo.Determinism.orderJudge_sound
+#print axioms Avo.Determinism.orderJudge_complete
